@@ -36,7 +36,16 @@ func TestDebugReplay(t *testing.T) {
 	if err := json.Unmarshal(raw, &rp); err != nil {
 		t.Fatal(err)
 	}
+	restartable := false
+	for _, o := range rp.Witness.History {
+		if o.Op == "restart" {
+			restartable = true
+		}
+	}
 	w, err := fsim.NewWorld(rp.Witness.Capacity)
+	if restartable {
+		w, err = fsim.NewRestartableWorld(rp.Witness.Capacity)
+	}
 	if err != nil {
 		t.Fatal(err)
 	}
@@ -86,6 +95,9 @@ func TestDebugReplay(t *testing.T) {
 			err = w.CacheChunks(files[o.File], all(files[o.File]))
 		case o.Op == "delete":
 			fmt.Println("   delete ->", w.N.Delete(files[o.File].Root))
+		case o.Op == "restart":
+			err = w.Restart()
+			w.N.SetBeforeDelFile(func(r boson.Address) { fmt.Printf("   DelFile(%s)\n", r.String()[:6]) })
 		case o.Op == "collect":
 			fsim.Collect(w.N, 12)
 		case strings.HasPrefix(o.Op, "collect-parked-"):
